@@ -158,23 +158,28 @@ func H_GradientPipelines() {
 	z2.SetRasterizer(&r2, image.Rect(0, 0, 32, 32))
 	z1.Reset(ivg.DefaultViewBox, ivg.DefaultPalette)
 	var e encode.Encoder
-	cs := vp.U8("csel") % 64
-	nIncr := vp.Choice("incr", 3) // 0..2 incrementing writes after the selector write
-	vp.Assume(!(vp.And(int(cs)+nIncr >= 10, int(cs)+nIncr < 12)))
+	// Prior history: a selector write followed by any number of incrementing register
+	// writes. Its effect on the two destinations is constructed directly: the Renderer's
+	// selector is any byte b (it counts increments without reducing them), the Encoder's
+	// is b mod 64. (That the two stay congruent under every styling call is H_SelectorStep.)
+	b := vp.U8("csel")
+	zs := z1.VPGet()
+	zs.CSel = b
+	z1.VPSet(&zs)
+	es := encode.VPEnc{Mode: 1, CSel: b % 64, Buf: []byte{0x89, 0x49, 0x56, 0x47, 0x00, b % 64}, LOD1: 1}
+	es.LOD1 = zs.LOD1
+	e.VPSet(&es)
 	stops := []generate.GradientStop{{Offset: 0, Color: color.RGBA{0xff, 0, 0, 0xff}}, {Offset: 1, Color: color.RGBA{0, 0, 0xff, 0xff}}}
-	for _, d := range []ivg.Destination{&z1, &e} {
+	var errs [2]error
+	for i, d := range []ivg.Destination{&z1, &e} {
 		g := generate.Generator{Destination: d}
-		g.SetCSel(cs)
-		for i := 0; i < nIncr; i++ {
-			g.SetCReg(0, true, ivg.RGBAColor(color.RGBA{0x40, 0x40, 0x40, 0xff}))
-		}
-		err := g.SetLinearGradient(-8, -8, 8, 8, generate.GradientSpreadPad, stops)
-		vp.Assert(err == nil, "gradient accepted")
+		errs[i] = g.SetLinearGradient(-8, -8, 8, 8, generate.GradientSpreadPad, stops)
 		g.StartPath(0, -16, -16)
 		g.AbsLineTo(16, -16)
 		g.AbsLineTo(16, 16)
 		g.ClosePathEndPath()
 	}
+	vp.Assert(errs[0] == errs[1], "the gradient helper accepts or rejects alike on both destinations")
 	out, err := e.Bytes()
 	vp.Assert(err == nil, "accepted")
 	err = decode.Decode(&z2, out)
